@@ -124,6 +124,7 @@ static int run_exec(abtmc_xrec *xr, int cfg, const abtmc_dev *dev, int ndev,
     xr->ncp = 0;
     xr->first_new_cp = 0;
     xr->nops = xr->nsteps = xr->newstates = xr->tracehash = 0;
+    xr->skipped_p = 0;
     xr->obslen = 0;
     xr->nstat = 0;
     pid_t pid = fork();
@@ -342,6 +343,7 @@ static void worker(int wi)
         S->transitions += xr->nsteps;
         S->ops += xr->nops;
         S->states += xr->newstates;
+        S->p_alts += xr->skipped_p;
         if (rerun)
             S->horizon_hits++;
         if (st == ABTMC_ST_OK)
